@@ -206,6 +206,27 @@ def _boundary(mjm, mjd, p, v, mask, static, exclude, ref):
   return False
 
 
+def _on_mesh_edge(mjm, mjd, g, hit, tol=2e-6):
+  """True if the world point `hit` lies (within tol) on an edge of a triangle of mesh geom g that contains it."""
+  mid = int(mjm.geom_dataid[g])
+  R, p = mjd.geom_xmat[g].reshape(3, 3), mjd.geom_xpos[g]
+  x = R.T @ (hit - p)
+  va, fa = int(mjm.mesh_vertadr[mid]), int(mjm.mesh_faceadr[mid])
+  V = np.array(mjm.mesh_vert[va : va + int(mjm.mesh_vertnum[mid])], float)
+  for f in np.array(mjm.mesh_face[fa : fa + int(mjm.mesh_facenum[mid])]):
+    a, b, c = V[f[0]], V[f[1]], V[f[2]]
+    n = np.cross(b - a, c - a)
+    area = np.linalg.norm(n)
+    if area < 1e-12 or abs(np.dot(x - a, n)) / area > tol:
+      continue
+    w0 = np.dot(np.cross(b - x, c - x), n) / area**2
+    w1 = np.dot(np.cross(c - x, a - x), n) / area**2
+    w2 = 1.0 - w0 - w1
+    if min(w0, w1, w2) > -1e-5 and min(abs(w0), abs(w1), abs(w2)) < 1e-5:
+      return True
+  return False
+
+
 def _compare(c, tag, wid, mjm, mjd, P, V, mask, static, exclude, dist, gid, nrm, stats, vsuffix):
   """dist/gid/nrm: MJWarp outputs for the rays (P, V) of one world."""
   nb = 0
@@ -233,6 +254,8 @@ def _compare(c, tag, wid, mjm, mjd, P, V, mask, static, exclude, dist, gid, nrm,
       nl = mjd.geom_xmat[g0].reshape(3, 3).T @ n0
       if np.max(np.abs(nl)) > 1 - 1e-9:
         qual = ":ref_hits_hfield_base_box"  # a face of the hfield's base/side box (axis-aligned local normal), not a surface triangle
+    if not qual and g0 >= 0 and int(mjm.geom_type[g0]) == 7 and _on_mesh_edge(mjm, mjd, g0, P[r] + d0 * V[r]):
+      qual = ":ref_hit_on_triangle_edge"  # the hit point lies on an edge shared by two (coplanar) triangles
     if g0 < 0 and gid[r] >= 0 and int(mjm.geom_type[gid[r]]) in (1, 7) and abs(float(np.dot(nrm[r], V[r]))) < 1e-5 * np.linalg.norm(V[r]):
       qual = ":got_triangle_coplanar_with_ray"
     vk = f"{tag}:{kind}:ref_geomtype={gt}:got_geomtype={wt}{qual}{vsuffix}{unit}"
